@@ -3,6 +3,8 @@ package main
 import (
 	"fmt"
 	"sync"
+	"sync/atomic"
+	"time"
 
 	"ergo.services/ergo/gen"
 
@@ -18,6 +20,80 @@ type tap struct {
 	mu sync.Mutex
 	on bool
 	ev []tapEv
+
+	gmu    sync.Mutex
+	tgates []*tgate
+	ngates atomic.Int32
+}
+
+// tgate parks the goroutine that drains the relations of one target, either
+// right before the drain (position "drain.before": the table delete has
+// happened if the code is right) or right after it ("drain.after"). Like the
+// hook gates it only delays and has a release deadline.
+type tgate struct {
+	pos      string
+	target   any
+	arrived  chan struct{}
+	release  chan struct{}
+	used     atomic.Bool
+	timedOut atomic.Bool
+	relOnce  sync.Once
+}
+
+func (t *tap) Park(pos string, target any) *tgate {
+	g := &tgate{pos: pos, target: target, arrived: make(chan struct{}), release: make(chan struct{})}
+	t.gmu.Lock()
+	t.tgates = append(t.tgates, g)
+	t.gmu.Unlock()
+	t.ngates.Add(1)
+	return g
+}
+
+func (g *tgate) WaitArrived(d time.Duration) bool {
+	select {
+	case <-g.arrived:
+		return true
+	case <-time.After(d):
+		return false
+	}
+}
+
+func (g *tgate) Release()       { g.relOnce.Do(func() { close(g.release) }) }
+func (g *tgate) TimedOut() bool { return g.timedOut.Load() }
+
+func (t *tap) at(pos string, target any) {
+	if t.ngates.Load() == 0 {
+		return
+	}
+	t.gmu.Lock()
+	var hit *tgate
+	for _, g := range t.tgates {
+		if g.pos == pos && g.target == target && !g.used.Load() {
+			hit = g
+			break
+		}
+	}
+	t.gmu.Unlock()
+	if hit == nil || hit.used.Swap(true) {
+		return
+	}
+	close(hit.arrived)
+	select {
+	case <-hit.release:
+	case <-time.After(3 * time.Second):
+		hit.timedOut.Store(true)
+	}
+}
+
+// dropGates removes all gates (end of a case)
+func (t *tap) dropGates() {
+	t.gmu.Lock()
+	for _, g := range t.tgates {
+		g.Release()
+	}
+	t.tgates = nil
+	t.gmu.Unlock()
+	t.ngates.Store(0)
 }
 
 type tapEv struct {
@@ -94,9 +170,11 @@ func (t *tap) CleanupConsumer(c gen.PID) ([]any, []any) {
 	return l, m
 }
 func (t *tap) CleanupTarget(target any) ([]gen.PID, []gen.PID) {
+	t.at("drain.before", target)
 	l, m := t.in.CleanupTarget(target)
 	cons := append(append([]gen.PID{}, l...), m...)
 	t.rec(tapEv{Op: "drain", T: target, NL: len(l), NM: len(m), Cons: cons})
+	t.at("drain.after", target)
 	return l, m
 }
 func (t *tap) CleanupNode(n gen.Atom) (map[any][]gen.PID, map[any][]gen.PID) {
